@@ -443,6 +443,27 @@ pub fn pg_case(
 
 const PGO_PER_HOST: usize = 40;
 
+/// The pattern-set part of a `G` record (as written by `pg_case`): per pattern the graph and the
+/// optional root.
+pub fn enc_pgpats(l: &mut Line, pats: &[PgPat]) {
+    l.list(pats, |l, (g, r)| {
+        g.encode(l);
+        l.opt(r, |l, r| {
+            l.tok(r);
+        });
+    });
+}
+
+/// The real patterns of a described set (as built by `pg_case`).
+pub fn build_pgpatterns(pats: &[PgPat]) -> Vec<PGPattern<PortGraph>> {
+    pats.iter()
+        .map(|(g, r)| match r {
+            Some(r) => PGPattern::from_host_with_root(g.build(), NodeIndex::new(*r)),
+            None => PGPattern::from_host(g.build()),
+        })
+        .collect()
+}
+
 pub fn gen_pg_set(rng: &mut Rng, thorough: bool, allow_noroot: bool) -> Vec<PgPat> {
     let np = rng.range(1, if thorough { 5 } else { 3 });
     let mut pats: Vec<PgPat> = vec![];
